@@ -582,7 +582,7 @@ def run_glue(R: Run):
                 out.append(cur)
             return out
 
-        def entry_case(which, xx, dst_kind, kw, overviews, sig):
+        def entry_case(which, xx, dst_kind, kw, overviews, sig, ovs_container="gen"):
             dst, exists, overwrite = new_dst("mem" if which in ("to_cog", "acc_to_cog") else dst_kind)
             kw = dict(kw)
             extra = {k: v for k, v in kw.items() if k not in ("blocksize", "ovr_blocksize", "overview_resampling", "overview_levels",
@@ -604,7 +604,8 @@ def run_glue(R: Run):
                         f"{ovs_tok} {'N' if rs is None else 's:' + rs} {opt_s(kw.get('overview_levels'), list_s)} {bool_s(kw.get('use_windowed_writes', False))} "
                         f"{icomp_tok(kw.get('intermediate_compression', False))} {dict_s(extra, raw=True)} {FIXED_UUID}")
                 if overviews is not None:
-                    kw["overviews"] = (o for o in overviews)
+                    kw["overviews"] = {"gen": lambda: (o for o in overviews), "list": lambda: list(overviews), "tuple": lambda: tuple(overviews),
+                                       "iter": lambda: iter(tuple(overviews))}[ovs_container]()
                 if which == "to_cog":
                     call = lambda: RIO.to_cog(xx, **kw)
                 elif which == "acc_to_cog":
@@ -745,6 +746,27 @@ def run_glue(R: Run):
         dup_ = traced(lambda: RIO.write_cog_layers([geo2_] + ovs2_, ":mem:", intermediate_compression={"overview_levels": [2]}))[0]
         R.oracle(dup_.endswith("|ERR:TypeError"), "ic-duplicate-keyword-not-refused", {"fn": "write_cog_layers", "intermediate_compression": {"overview_levels": [2]}},
                  f"a first-pass keyword that duplicates an explicit argument used to be a TypeError; now: {dup_[-80:]}", sig="pin|ic-duplicate-keyword")
+        # falsy-but-meaningful spellings of the entry options, through the PUBLIC write_cog / to_cog, on both sides of the 512 px
+        # default-overview threshold: overviews=[] / () / iter(()) is "supplied, none" (the supplied-overviews path with the image
+        # alone: NO computed pyramid), overview_levels=[] is "no overviews", overview_levels=None is the default pyramid;
+        # nodata 0 / 0.0 is a nodata value, blocksize given, overwrite False spelled out
+        n = 0
+        for (h_, w_) in ((511, 600), (512, 512), (600, 513), (40, 48)):
+            big_, _ = mk_xx((h_, w_), (h_, w_), "uint8", None, gk=h_)
+            for which in ("write_cog", "to_cog", "acc_write_cog", "acc_to_cog"):
+                for ovs_, cont_, lv_ in (([], "list", "absent"), ([], "tuple", "absent"), ([], "iter", "absent"), ([], "list", []), (None, "gen", []),
+                                         (None, "gen", "absent"), (None, "gen", None), ([], "tuple", None)):
+                    n += 1
+                    kw = {}
+                    if lv_ != "absent":
+                        kw["overview_levels"] = lv_
+                    if n % 3 == 0:
+                        kw["nodata"] = [0, 0.0][n % 2]
+                    if n % 4 == 0:
+                        kw["blocksize"] = [256, 512][n % 2]
+                    entry_case(which, big_, ["mem", "new", "exists_overwrite"][n % 3], kw, ovs_,
+                               f"glue|{which}|falsy-options|{'big' if min(h_, w_) >= 512 else 'small'}|ovs={'none' if ovs_ is None else 'empty-' + cont_}|levels={lv_}",
+                               ovs_container=cont_)
         # arrays without geo-registration, empty layer lists, layers of mixed registration
         plain, _ = mk_xx((8, 9), None, "uint8", 1, geo=False)
         geo, _ = mk_xx((8, 9), (8, 9), "uint8", 1)
